@@ -616,6 +616,36 @@ def r02_2(ctx, counts) -> RuleResult:
     return res
 
 
+def _judge_yield(res, f, syms, set_names, facts, x, v, nd) -> None:
+    inner = v
+    while isinstance(inner, ast.Call) and dotted(inner.func) == 'cast' and len(inner.args) == 2:
+        inner = inner.args[1]
+    is_sorted = isinstance(inner, ast.Call) and dotted(inner.func) == 'sorted' and any(
+        k.arg == 'key' and stmt_text(k.value) == 'node_position' for k in inner.keywords)
+    from_set = False
+    src = inner.args[0] if is_sorted and inner.args else inner
+    for y in ast.walk(src):
+        if isinstance(y, ast.Name) and y.id in set_names:
+            from_set = True
+        if isinstance(y, (ast.Set, ast.SetComp)):
+            from_set = True
+    setop = bool(set(syms) & {'|', 'union', 'intersect', 'except'})
+    if not from_set and not setop:
+        res.ok()
+        return
+    concat = any(ft == '+self.concatenated' for ft in facts[nd.id])
+    res.instances.append(f'{f.key} ({",".join(sorted(set(syms)))}): yield from set at '
+                         f'L{x.lineno} sorted={is_sorted} concatenated-branch={concat}')
+    if is_sorted or concat:
+        res.ok()
+    else:
+        res.fail(finding('R02.3', f, x, 'unsorted set' if from_set else 'unsorted operand',
+                         f'{sorted(set(syms))}: `{stmt_text(x)[:60]}` yields '
+                         f'{"the elements of a set" if from_set else "an operand as it came"} '
+                         f'without sorted(key=node_position): the result of a set '
+                         f'operator must be duplicate-free and in document order'))
+
+
 def r02_3(ctx, counts) -> RuleResult:
     model: Model = ctx.model
     reg = ctx.reg
@@ -656,37 +686,22 @@ def r02_3(ctx, counts) -> RuleResult:
             for x in nd.walk():
                 if not isinstance(x, ast.YieldFrom):
                     continue
-                v = x.value
-                inner = v
-                while isinstance(inner, ast.Call) and dotted(inner.func) == 'cast' \
-                        and len(inner.args) == 2:
-                    inner = inner.args[1]
-                is_sorted = isinstance(inner, ast.Call) and dotted(inner.func) == 'sorted' and any(
-                    k.arg == 'key' and stmt_text(k.value) == 'node_position'
-                    for k in inner.keywords)
-                from_set = False
-                src = inner.args[0] if is_sorted and inner.args else inner
-                for y in ast.walk(src):
-                    if isinstance(y, ast.Name) and y.id in set_names:
-                        from_set = True
-                    if isinstance(y, (ast.Set, ast.SetComp)):
-                        from_set = True
-                setop = bool(set(syms) & {'|', 'union', 'intersect', 'except'})
-                if not from_set and not setop:
-                    continue
-                n += 1
-                concat = any(ft == '+self.concatenated' for ft in facts[nd.id])
-                res.instances.append(f'{f.key} ({",".join(sorted(set(syms)))}): yield from set at '
-                                     f'L{x.lineno} sorted={is_sorted} concatenated-branch={concat}')
-                if is_sorted or concat:
-                    res.ok()
-                else:
-                    res.fail(finding('R02.3', f, x, 'unsorted set' if from_set else
-                                     'unsorted operand',
-                                     f'{sorted(set(syms))}: `{stmt_text(x)[:60]}` yields '
-                                     f'{"the elements of a set" if from_set else "an operand as it came"} '
-                                     f'without sorted(key=node_position): the result of a set '
-                                     f'operator must be duplicate-free and in document order'))
+                # `nodes = <a> if … / else: nodes = <b>` … `yield from nodes`: every definition
+                # of the temporary is judged where it is made
+                pairs = [(x.value, nd)]
+                if isinstance(x.value, ast.Name) and x.value.id not in set_names:
+                    defs = [q for q in cfg.nodes if q.kind == 'stmt'
+                            and isinstance(q.ast, (ast.Assign, ast.AnnAssign))
+                            and getattr(q.ast, 'value', None) is not None
+                            and isinstance((q.ast.targets[0] if isinstance(q.ast, ast.Assign)
+                                            else q.ast.target), ast.Name)
+                            and (q.ast.targets[0] if isinstance(q.ast, ast.Assign)
+                                 else q.ast.target).id == x.value.id]
+                    if defs:
+                        pairs = [(q.ast.value, q) for q in defs]
+                for v, nd_ in pairs:
+                    _judge_yield(res, f, syms, set_names, facts, x, v, nd_)
+                    n += 1
     counts['set_yields'] = n
     # operand isolation: each operand of a set operator is evaluated on its own copy of the
     # context (an operand such as a leading // moves the focus and does not restore it)
@@ -694,7 +709,7 @@ def r02_3(ctx, counts) -> RuleResult:
     for f, syms in sorted(funcs.items(), key=lambda kv: kv[0].key):
         if not set(syms) & {'|', 'union', 'intersect', 'except'}:
             continue
-        for c in walk_local(f.node):
+        for c in ast.walk(f.node):        # nested closures evaluate operands too
             if isinstance(c, ast.Call) and isinstance(c.func, ast.Attribute) and \
                     c.func.attr in ('select', 'evaluate') and \
                     isinstance(c.func.value, ast.Subscript) and \
